@@ -612,6 +612,56 @@ fn check_go_program(case: &mut Case, rng: &mut Rng, max_sched: usize) {
     let _ = go_program;
 }
 
+/// programs in which a failing operation's result is discarded: (label, source, failure class)
+pub fn discarded_failure_sources() -> Vec<(String, String, &'static str)> {
+    let ops: [(&str, &str, &str); 8] = [
+        ("vec_get past the end", "vec_get(v, n)", "index-out-of-range"),
+        ("vec_get at a negative index", "vec_get(v, 0 - 1)", "index-out-of-range"),
+        ("vec_get on an empty vector", "vec_get(e, 0)", "index-out-of-range"),
+        ("array_get past the end", "array_get(arr, n)", "index-out-of-range"),
+        ("int32 division by zero", "n / z", "divide-by-zero"),
+        ("uint16 division by zero", "7u16 / zu", "divide-by-zero"),
+        ("int64 division by zero", "9i64 / zl", "divide-by-zero"),
+        ("missing match arm", "match n { 0 => 1, 1 => 2, _ => match z { 0 => pick(z), _ => 5 } }", "explicit-panic"),
+    ];
+    let discards: [(&str, &str); 6] = [
+        ("wildcard let", "    let _ = OP;\n"),
+        ("unused named let", "    let unused = OP;\n"),
+        ("dead chain", "    let u1 = OP;\n    let u2 = u1;\n"),
+        ("component of a discarded tuple", "    let _ = (1, OP);\n"),
+        ("unused let inside a branch", "    let _ = if n > 0 { let w = OP; 1 } else { 2 };\n"),
+        ("unused let inside a loop body", "    let k = ref(0);\n    while ref_get(k) < 1 {\n        let w = OP;\n        let _ = ref_set(k, 1);\n    };\n"),
+    ];
+    let mut out = Vec::new();
+    for (oname, op, class) in ops.iter() {
+        for (dname, dtext) in discards.iter() {
+            let src = format!(
+                "enum Two {{ A, B }}\nfn pick(z: int32) -> int32 {{ let t = if z > 5 {{ Two::A }} else {{ Two::B }}; let Two::A = t; 3 }}\nfn f(n: int32, z: int32, zu: uint16, zl: int64) -> unit {{\n    let v: Vec[int32] = vec_push(vec_push(vec_new(), 1), 2);\n    let e: Vec[int32] = vec_new();\n    let arr = [1, 2];\n    let _ = string_println(\"before\");\n{}    let _ = string_println(\"after\");\n    ()\n}}\nfn main() -> unit {{ f(2, 0, 0u16, 0i64) }}\n",
+                dtext.replace("OP", op)
+            );
+            out.push((format!("discarded-failure/{}/{}", oname, dname), src, *class));
+        }
+    }
+    out
+}
+
+pub fn check_discarded_failure(c: &mut crate::runner::Case, prop: &str, label: &str, src: &str, class: &str) {
+    if let Some((out, term, stderr)) = crate::exec::run_source(c, prop, label, src, 1_000_000) {
+        let failed = matches!(&term, goexec::Term::Fail(_));
+        if failed && out == "before\n" {
+            c.count("discarded_failures_still_fail", 1);
+            c.count("tests", 1);
+            c.nontrivial(hash_str(label));
+        } else {
+            c.violation(
+                format!("{}:discarded-failing-operation-lost:{}", prop, class),
+                format!("{}: the program should fail between `before` and `after`; it printed {:?} and ended with {:?} {}", label, out, term, util::truncate(&stderr, 80)),
+                json!({"label": label, "source": src, "stdout": out}),
+            );
+        }
+    }
+}
+
 fn run(ctx: &mut Ctx) {
     let tier = ctx.tier;
     let seed = ctx.seed;
@@ -697,6 +747,14 @@ fn run(ctx: &mut Ctx) {
                 }
             });
         }
+    }
+    // 2b. failing operations whose result is discarded: the failure is an effect and must still happen, exactly
+    // where the operation stands (between `before` and `after`)
+    for (k2, (label, src, class)) in discarded_failure_sources().into_iter().enumerate() {
+        if !ctx.mine(500_000 + k2 as u64) {
+            continue;
+        }
+        ctx.case(&label.clone(), |c| check_discarded_failure(c, "C09", &label, &src, class));
     }
     // 3. random effect-heavy programs
     let n = tier.pick(200u64, 30_000u64) / ctx.nshards as u64 + 1;
